@@ -602,3 +602,40 @@ def sp_fresh_obj(eng, st, e):
 
 
 lib.SPECIAL['fresh_obj'] = sp_fresh_obj
+
+
+# ---- middleware environment: the wrapped applications and the file system ---------------------------
+def _route(eng, st, name):
+    st.ghost['route'] = V(List(STR), z3.Concat(st.ghost['route'].t, z3.Unit(z3.StringVal(name))))
+    eng._wrote(st, ('ghost', 'route'))
+
+
+def _engine_handle_request(eng, st, recv, args, kwargs, line):
+    s2 = st.copy()
+    _route(eng, s2, 'engine')
+    yield s2, V(Opaque('AppResult'), z3.Int(eng.name('engine_result')))
+
+
+def _wsgi_app_call(eng, st, f, args, kwargs, line):
+    s2 = st.copy()
+    _route(eng, s2, 'app')
+    yield s2, V(Opaque('AppResult'), z3.Int(eng.name('app_result')))
+
+
+LIBM[('opaque:EngineApp', 'handle_request')] = _engine_handle_request
+OPAQUE_CALL['WSGIApplication'] = _wsgi_app_call
+
+
+@libfn('open')
+def _open(eng, st, args, kwargs, line):
+    s2 = st.copy()
+    s2.ghost['opened'] = V(List(STR), z3.Concat(s2.ghost['opened'].t, z3.Unit(args[0].t)))
+    eng._wrote(s2, ('ghost', 'opened'))
+    yield s2, V(Opaque('File'), z3.Int(eng.name('file')))
+
+
+def _file_read(eng, st, recv, args, kwargs, line):
+    yield st, V(BYTES, z3.String(eng.name('file_content')))
+
+
+LIBM[('opaque:File', 'read')] = _file_read
